@@ -53,6 +53,13 @@ def _build(base, parents, name="proj"):
     triggers.write_project(d, names=set(FILES), subdir="app")
     # a source file directly in the project directory (the walk root), next to the sub-directory
     (d / "top_level.py").write_text(triggers.T["magic.py"][3].replace("3975", "4409"))
+    # ignore rules that are written relative to the project: a repository-level list and a per-linter list
+    (d / ".thailintignore").write_text("app/skipped_magic.py\ntop_skipped.py\n")
+    (d / "app" / "skipped_magic.py").write_text(triggers.T["magic.py"][3].replace("3975", "5501"))
+    (d / "top_skipped.py").write_text(triggers.T["magic.py"][3].replace("3975", "5503"))
+    (d / "app" / "half_skipped.py").write_text(triggers.T["magic.py"][3].replace("3975", "5507").replace("price", "rate") + "\n\n" + triggers.T["nest.py"][3])
+    with open(d / ".thailint.yaml", "a") as fh:
+        fh.write("magic-numbers:\n  ignore:\n    - app/half_skipped.py\n")
     return d
 
 
